@@ -190,6 +190,7 @@ def run_property(prop, tier):
     diff_runs = diff_mismatch = 0
     vacuity = 0
     exhaustive_cases = 0
+    bounded_units = []
     replay_dir = os.path.join(VERIF, "replays", prop)
     all_names = []
     refuted = {}
@@ -210,6 +211,11 @@ def run_property(prop, tier):
         inlined |= set(res.get("inlined", []))
         used |= set(res.get("contracts_used", []))
         exhaustive_cases += res.get("cases", 0) or 0
+        bvcs = [vc for vc in res.get("vcs", []) if vc.get("backend") == "bounded-exhaustive" and prop in vc["props"]]
+        if bvcs:
+            # bounded stand-ins are listed apart and are not proofs
+            bounded_units.append({"unit": res.get("unit"), "cases": res.get("cases"), "bound": bvcs[0].get("detail"),
+                                  "obligations": len(bvcs), "counted_as": "bounded, not proved"})
         if spec[0] == "contract":
             functions.append({"function": res["unit"], "source_sha256": res.get("source_hash"),
                               "paths": res.get("paths"), "outcomes": res.get("outcomes")})
@@ -236,10 +242,12 @@ def run_property(prop, tier):
                 samples.append({"obligation": vc["name"], "backend": vc["backend"], "time_s": vc["time"],
                                 "path": vc.get("path")})
             if vc["verdict"] == "discharged":
+                by_backend[vc["backend"]] = by_backend.get(vc["backend"], 0) + 1
+                if vc["backend"] == "bounded-exhaustive":
+                    continue            # a bounded stand-in that held: listed under `bounded`, never counted as proved
                 all_names.append(vc["name"])
                 obligations += 1
                 discharged += 1
-                by_backend[vc["backend"]] = by_backend.get(vc["backend"], 0) + 1
                 if vc.get("cvc5"):
                     cvc5_stats[vc["cvc5"]] = cvc5_stats.get(vc["cvc5"], 0) + 1
                 continue
@@ -319,7 +327,7 @@ def run_property(prop, tier):
             "exhaustive_cases": exhaustive_cases,
             "undecided": [{"what": a, "why": str(b)[:500]} for a, b in undecided][:50],
             "undecided_clauses": info.get("undecided_clauses", []),
-            "bounded": info.get("bounded", []),
+            "bounded": list(info.get("bounded", [])) + bounded_units,
             "known_findings_reported": [f["what"] for f in known_reported],
             "explanation": info.get("explanation", ""),
         },
